@@ -95,7 +95,7 @@ class Rational(Primitive):
         """
         if self.is_integer():
             return self._value.numerator
-        raise _any.InvalidOperandError("Rational %s is not an integer" % self._value)
+        raise _any.InvalidOperandError("Rational %s is not an integer" % self)
 
     def is_integer(self) -> bool:
         """Whether the demonimator equals one."""
@@ -181,7 +181,7 @@ class Rational(Primitive):
             try:
                 result = impl(self._value, right._value)
             except ZeroDivisionError:
-                raise _any.InvalidOperandError("Cannot divide %s by zero" % self._value) from None
+                raise _any.InvalidOperandError("Cannot divide %s by zero" % self) from None
             except OverflowError:
                 raise _any.InvalidOperandError("The result of the operation is too large to be represented") from None
             else:
